@@ -269,8 +269,8 @@ fn cache_case(ctx: &mut Ctx, n: usize, mut idx: u64) {
     }
 }
 
-pub fn subs(tier: Tier) -> Vec<Sub> {
-    let maxn: usize = tier.pick(3, 4);
+pub fn subs(_cli_tier: Tier) -> Vec<Sub> {
+    let maxn: usize = 4; // 4 units cost < 1 s: both tiers
     let mut v = vec![];
     for n in 1..=maxn {
         v.push(Sub::new(
